@@ -85,9 +85,10 @@ def job_matrix(job):
         # expr_as_matrix for expressions linear in the last argument
         if cfg.get('expr', True) and alg.d <= 3:
             exprs = {'R>>x': lambda R, x: R >> x, 'R*x': lambda R, x: R * x, 'x*R': lambda R, x: x * R, 'R^x': lambda R, x: R ^ x,
-                     'R|x + x': lambda R, x: (R | x) + x, '~x * R': lambda R, x: ~x * R}
+                     'R|x + x': lambda R, x: (R | x) + x, '~x * R': lambda R, x: ~x * R,
+                     '(R*x)/4': lambda R, x: (R * x) / 4, '0.5*(R>>x)': lambda R, x: 0.5 * (R >> x)}
             for name, f in exprs.items():
-                for mode in ('symbolic', 'numeric', 'array'):
+                for mode in ('symbolic', 'numeric', 'numeric-int', 'array'):
                     out['evaluations'] += 1
                     xk = tuple(alg.indices_for_grades[(1,)]) if rng.random() < 0.5 else tuple(rand_keys(rng, alg, 'sparse') or (1,))
                     x = alg.multivector(name='x', keys=xk)
@@ -96,6 +97,8 @@ def job_matrix(job):
                         R = alg.multivector(name='R', keys=rk)
                     elif mode == 'numeric':
                         R = mv_from(alg, rk, [float(rng.randint(-3, 3)) for _ in rk])
+                    elif mode == 'numeric-int':
+                        R = mv_from(alg, rk, [int(rng.randint(-3, 3) or 1) for _ in rk])      # plain ints: the matrix must not inherit an integer dtype
                     else:
                         R = MultiVector.fromkeysvalues(alg, rk, [np.array([float(rng.randint(-3, 3)), float(rng.randint(-3, 3))]) for _ in rk])
                     res_like = None if rng.random() < 0.6 else alg.multivector(keys=tuple(rand_keys(rng, alg, 'sparse') or (1,)), values=None, name='q')
